@@ -1245,6 +1245,8 @@ class BatchMon(Monitor):
                 nleaf = sum(len(leaves(p)) for p in d.stored_parts)
                 if d.level() != nleaf:
                     raise Violation('leaf_count', f'{d.name}.level()={d.level()} but holds {nleaf} parts')
+                if nleaf > d.capacity:
+                    raise Violation('leaf_count', f'{d.name} holds {nleaf} parts (every part of a batch counts), capacity {d.capacity}')
 
 
 # ============================================================================ C18
